@@ -152,7 +152,12 @@ def emit_struct(i, name, n):
 def main():
     mode, tier, seed, outdir, ntu = sys.argv[1], sys.argv[2], int(sys.argv[3]), sys.argv[4], int(sys.argv[5])
     rnd = random.Random(seed)
-    if mode == 'c05':
+    if mode == 'c05lg':
+        # large-grid variant: the named expressions and every one-level tree that contains a spline factor
+        trees = [(nm, t) for nm, t in NAMED] + [(lib(t), t) for t in level1(LEAVES) if uses(t, 'V')]
+        common = 'c05_common.h'
+        mode = 'c05'
+    elif mode == 'c05':
         trees = [(nm, t) for nm, t in NAMED] + [(lib(t), t) for t in level1(LEAVES)]
         for u in UNARY_INTS:
             for l in (('X', 1), ('D', 1), ('mul', ('D', 1), ('X', 1))): trees.append((lib(unary(u, l)), unary(u, l)))
@@ -197,7 +202,7 @@ def main():
         for k in range(ntu):
             part = trees[k::ntu]   # strided, so that the (larger) deep trees spread over all translation units
             if not part: continue
-            fn = os.path.join(outdir, 'C05_gen_%d.cpp' % k)
+            fn = os.path.join(outdir, 'C05%s_gen_%d.cpp' % ('lg' if sys.argv[1] == 'c05lg' else '', k))
             with open(fn, 'w') as f:
                 f.write('// generated by gen_exprs.py (%s tier, seed %d): %d operator expression trees\n#include "harness.h"\n#include "gen/%s"\n' % (tier, seed, len(part), common))
                 for i, (nm, t) in enumerate(part): f.write(emit_struct(i, nm, t))
